@@ -76,10 +76,10 @@ CFG = dict(
                          "conc:judged:session-of-removed-neighbour": 110, "conc:judged:session-may-live": 190,
                          "conc:judged:setup": 190, "conc:closed-session-ended": 200,
                          "conc:kind:Disable": 140, "conc:kind:Delete": 80, "conc:kind:Replace": 80}),
-    quick=[e2("accept", "event::verif::c16::run", 4, 40, part="seq"),
-           e2("conc", "event::verif::c16::run", 2, 40, part="concurrent"),
-           e1("mirror", "c16", "debug", 1, 30),
-           e1("mirror", "c16", "release", 1, 30)],
+    quick=[e2("accept", "event::verif::c16::run", 4, 120, part="seq"),
+           e2("conc", "event::verif::c16::run", 2, 120, part="concurrent"),
+           e1("mirror", "c16", "debug", 1, 120),
+           e1("mirror", "c16", "release", 1, 120)],
     thorough=[e2("accept", "event::verif::c16::run", 16, 400, part="seq"),
               e2("conc", "event::verif::c16::run", 4, 200, part="concurrent"),
               e1("mirror", "c16", "debug", 4, 200),
